@@ -129,7 +129,7 @@ def run(ctx):
     else:
         boxes = {("chain", 1, 1), ("chain", 2, 1), ("chain", 3, 1), ("chain", 4, 1), ("quad", 2, 2), ("quad", 3, 2),
                  ("tri", 1, 1), ("tri", 2, 1)}
-        consts = dict(Boxes=boxes, MaskBits=2, SplitChoices={-1, 0, 1}, MaxCells=8, SignPeriod=4, BcPeriod=3,
+        consts = dict(Boxes=boxes, MaskBits=2, SplitChoices={-1, 1}, MaxCells=8, SignPeriod=4, BcPeriod=3,
                       PsiVals={-2, -1, 0, 1, 2}, MaxChainFaces=5, Masks={0, 1, 2})
         sel_recipes = [["cart", [2, 2]], ["cart", [3, 2]], ["cart", [2, 1, 1]], ["stri", [2, 1]],
                        ["frac", [[[1, 1], [0, 1]]], [2, 2], 0], ["frac", [[[1, 2], [1, 1]]], [3, 2], 0],
